@@ -132,14 +132,15 @@ def calls_uncontracted_helper(r, f, base_unit=None):
         text = open(r.gen_path).read()
     except OSError:
         return None
-    i = text.find('//@fn %s |' % f['fn'])
-    if i < 0:
-        return None
-    j = text.find('//@endfn', i)
-    body = text[i:j if j > 0 else len(text)]
-    for n in names:
-        if re.search(r'\b%s\s*\(' % re.escape(n), body):
-            return n
+    for fn in [x for x in (f['fn'], f.get('body_fn')) if x]:
+        i = text.find('//@fn %s |' % fn)
+        if i < 0:
+            continue
+        j = text.find('//@endfn', i)
+        body = text[i:j if j > 0 else len(text)]
+        for n in names:
+            if re.search(r'\b%s\s*\(' % re.escape(n), body):
+                return n
     return None
 
 
@@ -148,13 +149,16 @@ def lost_proof_support(r, f, base_unit=None):
     A closure expression that the baseline text of the function did not have counts too: it has no contract, so Verus
     knows nothing about its result."""
     out = []
-    nb = (base_unit or {}).get('fn_closures', {}).get(f['fn'])
-    nn = getattr(r, 'fn_closures', {}).get(f['fn'])
-    if nb is not None and nn is not None and nn > nb:
-        out.append('the function now contains %d closure expression(s), %d on the pinned tree: the new one has no contract' % (nn, nb))
+    fns = [x for x in (f['fn'], f.get('body_fn')) if x]
+    for fn in fns:
+        nb = (base_unit or {}).get('fn_closures', {}).get(fn)
+        nn = getattr(r, 'fn_closures', {}).get(fn)
+        if nb is not None and nn is not None and nn > nb:
+            out.append('the function now contains %d closure expression(s), %d on the pinned tree: the new one has no contract' % (nn, nb))
     for x in getattr(r, 'relaxed', []):
-        if x.startswith(f['fn'] + ':') and any(k in x for k in ('skipped', 'dropped', 'moved to loop', 'header is', 'not found', 'approximately')):
-            out.append(x[len(f['fn']) + 1:].strip())
+        for fn in fns:
+            if x.startswith(fn + ':') and any(k in x for k in ('skipped', 'dropped', 'moved to loop', 'header is', 'not found', 'approximately')):
+                out.append(x[len(fn) + 1:].strip())
     return out
 
 
@@ -166,7 +170,11 @@ def run_property(pid, tier, seed):
     units = PROPS[pid]['units']
     base = load_json(BASELINE, {})
     kf = known_findings()
-    results = run_units(units, tier, seed)
+    from . import bounded as _bounded
+    with cf.ThreadPoolExecutor(max_workers=1) as _bex:
+        _bf = _bex.submit(_bounded.run, pid, tier, seed)
+        results = run_units(units, tier, seed)
+        bounded_res = _bf.result()
     if tier == 'thorough':
         from . import thorough
         extra = thorough.run(pid, units, results, seed)
@@ -203,6 +211,31 @@ def run_property(pid, tier, seed):
         print('KNOWN-FINDING: property=%s %s [%s] %s' % (pid, k['what'], f['obligation'], k.get('witness', '')))
     code = 0
     vlines = []
+    # bounded stand-ins: a mismatch on the real code is a violation with its failing input (unless it is a recorded finding)
+    bounded_viol = []
+    for b in bounded_res:
+        if b.get('failing_input') is None:
+            continue
+        f = {'obligation': b['obligation'], 'fn': '(bounded stand-in %s)' % b['suite'], 'where': 'see witness', 'line': 0, 'label': b['obligation'],
+             'message': 'bounded check on the real code found an input whose verdict contradicts the property: ' + str(b['failing_input'].get('expected'))[:400],
+             'text': b['suite']}
+        k = match_known(pid, 'bounded', f, kf)
+        if k is not None and known_still_fails(k):
+            print('KNOWN-FINDING: property=%s %s [%s]' % (pid, k['what'], f['obligation']))
+            b['known_finding'] = k['what']
+            continue
+        bounded_viol.append((b, f))
+    for (b, f) in bounded_viol:
+        class _R:
+            gen_path = None
+            cmd = 'replay_runner (bounded stand-in %s)' % b['suite']
+            relaxed = []
+        path = write_replay(pid, 'bounded', f, _R, b['failing_input'])
+        print('obligation=%s (bounded stand-in, bound: %s): %s' % (f['obligation'], b['bound'][:160], f['message'][:400]))
+        line = 'VIOLATION property=%s replay=%s' % (pid, path)
+        print(line)
+        vlines.append(line)
+        code = 1
     if violations:
         code = 1
         from . import witness as wit
@@ -272,7 +305,9 @@ def run_property(pid, tier, seed):
         code = 2
         for (u, why) in undecided:
             print('UNDECIDED property=%s unit=%s reason=%s' % (pid, u, why[:1200]))
-    write_evidence(pid, tier, seed, units, results, known, violations, undecided, time.time() - t0, extra)
+    extra = dict(extra or {})
+    extra['bounded_standins'] = bounded_res
+    write_evidence(pid, tier, seed, units, results, known, violations + [('bounded', f) for (_b, f) in bounded_viol], undecided, time.time() - t0, extra)
     if code == 0:
         tot_v = sum(results[u].verified for u in units)
         print('OK property=%s units=%s verified=%d wall=%.1fs' % (pid, ','.join(units), tot_v, time.time() - t0))
@@ -341,7 +376,7 @@ def write_evidence(pid, tier, seed, units, results, known, violations, undecided
             'repo_functions_with_explicit_contract': fns_contract,
             'named_contract_clauses': clauses,
             'units': per_unit,
-            'bounded_standins': bounded,
+            'bounded_standins': bounded + [{k: v for k, v in b.items() if k != 'failing_input' or v is not None} for b in (extra or {}).get('bounded_standins', [])],
             'known_findings_printed': [k['what'] for (_, _, k) in known],
             'known_finding_obligations_not_counted': sorted(set(f['obligation'] for (_, f, _) in known)),
             'undecided': [{'unit': u, 'reason': w[:300]} for (u, w) in undecided],
@@ -407,7 +442,7 @@ def replay(pid, path):
         from . import witness as wit
         ok = wit.replay(doc['witness'])
         print('witness %s: %s' % (json.dumps(doc['witness'])[:300], 'still fails on the real code' if ok else 'no longer fails'))
-    if doc['obligation'].endswith('.bounded-search-on-real-code'):
+    if doc['obligation'].endswith('.bounded-search-on-real-code') or doc.get('unit') == 'bounded':
         if doc.get('witness') and ok:
             print('VIOLATION property=%s replay=%s' % (pid, path))
             return 1
